@@ -15,7 +15,8 @@ RULE = ("case = 1-4 rounds, each with up to 6 outstanding requests drawn from ap
         "picture get, privacy get, statuses get, set status, group list/info/participants/create/leave/subject/add/remove/"
         "promote/demote, contact sync) and library-internal kinds (key fetch via first message to a contact, group info via "
         "first message to a group) x reply mode per request (result, error, duplicated result, duplicated error, unknown "
-        "id, non-reply stanza with the live id before the reply) x seeded release order of the held replies; callbacks are "
+        "id, non-reply stanza with the live id before the reply) x the sender the reply names (addressee, server domain, "
+        "addressee's domain, another user: the id alone correlates) x seeded release order of the held replies; callbacks are "
         "counted by wrapping them at registration; distinct = distinct (requests, modes, order) digests; non-trivial = at "
         "least two requests were outstanding at once and were answered out of request order")
 COMPONENTS = {"real": ["yowsup.layers.interface (YowInterfaceLayer._sendIq / processIqRegistry)", "yowsup.layers.YowProtocolLayer "
@@ -53,6 +54,22 @@ def setup():
     _S.update(locals())
 
 
+# the jid a reply names as its sender: the request's addressee (what an echoing server does), the bare server domain,
+# the domain of the addressee (g.us answers for a group jid) or a different user jid; the id alone decides the callback
+FROM_VARIANTS = ["addressee", "addressee", "addressee", "server", "domain", "other"]
+
+
+def reply_from(variant, to):
+    to = to or "s.whatsapp.net"
+    if variant == "server":
+        return "s.whatsapp.net"
+    if variant == "domain":
+        return to.split("@")[-1]
+    if variant == "other":
+        return "4915550001234@s.whatsapp.net"
+    return to
+
+
 def total(tier):
     return BUDGET[tier][0]
 
@@ -60,6 +77,7 @@ def total(tier):
 def case(idx, tier, base):
     seed = base * (1 << 20) + idx
     r = stream(seed, "workload")
+    rf = stream(seed, "replyfrom")   # own substream: who the reply claims to come from (correlation is by id alone)
     rounds = []
     internal_left = ["keyfetch", "groupinfo_int"]
     for _ in range(r.randint(1, 4)):
@@ -71,7 +89,7 @@ def case(idx, tier, base):
             else:
                 k = r.choice(APP_KINDS)
                 mode = r.choice(MODES)
-            reqs.append({"kind": k, "mode": mode})
+            reqs.append({"kind": k, "mode": mode, "frm": rf.choice(FROM_VARIANTS)})
         order = list(range(len(reqs)))
         r.shuffle(order)
         rounds.append({"reqs": reqs, "order": order})
@@ -292,7 +310,7 @@ class W(convo.World):
             self.held = []
             recs = []
             for q in rd["reqs"]:
-                rec = {"kind": q["kind"], "mode": q["mode"], "id": None}
+                rec = {"kind": q["kind"], "mode": q["mode"], "id": None, "frm": q.get("frm", "addressee")}
                 recs.append(rec)
                 if q["kind"] == "keyfetch":
                     before = set(self.registered_internal)
@@ -341,7 +359,7 @@ class W(convo.World):
         self.status = "done"
 
     def reply(self, reqnode, kind, typ, rid=None):
-        frm = reqnode["to"] or "s.whatsapp.net"
+        frm = reply_from(getattr(self, "cur_frm", "addressee"), reqnode["to"])
         rid = rid or reqnode["id"]
         if typ == "result":
             if kind == "keyfetch":
@@ -355,6 +373,9 @@ class W(convo.World):
 
     def release(self, rec, reqnode):
         mode, kind = rec["mode"], rec["kind"]
+        self.cur_frm = rec.get("frm", "addressee")
+        if self.cur_frm != "addressee":
+            self.on_fault("srv_reply_from_" + self.cur_frm, rec["id"], {})
         rec["delivered"] = []
         if mode == "nonreply_then_result":
             self.server.to_jid(JA, Node("ack", {"class": "receipt", "id": reqnode["id"], "from": "s.whatsapp.net"}))
